@@ -302,6 +302,7 @@ def main():
         "leanchecker": leanchecker,
         "extract": extract_note,
         "notes": ctx.notes,
+        "object_history": dict(__import__("common").HISTORY_STATS),
         "exhaustive": bool(getattr(ctx, "exhaustive", False)),
     }
     ev = {
